@@ -17,6 +17,7 @@ def main():
     ap.add_argument('--replay', default=None)
     ap.add_argument('--jobs', type=int, default=None)
     ap.add_argument('--count', type=int, default=None)
+    ap.add_argument('--one', type=int, default=None, help='run one case index and print its result (internal)')
     a = ap.parse_args()
     seed = a.seed
     if seed is None:
@@ -31,6 +32,8 @@ def main():
         return harness.main_replay(a.replay)
     if not a.id:
         ap.error('property id required')
+    if a.one is not None:
+        return harness.main_one(a.id.upper(), a.tier, seed, a.one)
     if a.id.lower() == 'selftest':
         import selftest
         return selftest.main(a.tier, seed, a.jobs)
